@@ -154,6 +154,7 @@ add("c02_sep_replace_piece", ["C02", "C05"], "quick",
 MG = "move_generator::kani_verif::"
 MT = "move_generator::magic_table::kani_verif::"
 NOSPILL = "smallvec::SmallVec::reserve_one_unchecked and ::try_grow (the grow paths) -> panic!: a list that would exceed its inline capacity is a reported failure, not a dropped path; SmallVec::spilled -> false (sound because no path can move a list to the heap once the grow paths panic)"
+APPENDSTUB = "smallvec::SmallVec::append -> plain indexed loop with the library function's contract (all elements of `other` moved to the end of `self` in order, `other` left empty); the library version drains `other`, and draining a list of ChessMoves of SYMBOLIC length costs CBMC > 20 GB (measured on a 10-line probe)"
 ATTSTUB = "Targets::generate_attack_targets -> returns a harness-chosen arbitrary bitboard A and records (colour, board) it was asked about; contract discharged by the A1 lemmas + C11"
 
 for col, cname, w in [("w", "White", True), ("b", "Black", False)]:
@@ -177,13 +178,13 @@ for col, cname, w in [("w", "White", True), ("b", "Black", False)]:
         stubs=[NOSPILL, "generate_pawn_move_targets, generate_pawn_attack_targets, expand_piece_targets, generate_en_passant_moves -> symbolic outputs + argument records; contracts discharged by c01_pawn_*, c01_expand_*, c01_ep_*"],
         module=MG, unwind=10, est_s=120)
     for kind in ["std", "promo", "ep", "oo", "ooo"]:
-        add(f"c01_filter_{kind}_{col}", ["C01", "C04"], "experimental",
+        add(f"c01_filter_{kind}_{col}", ["C01"], "quick",
             f"remove_invalid_moves on a singleton list holding a Legalish {KIND_NAMES[kind]} by {cname}: kept <=> A misses the mover's king in the successor position; A requested for the opponent on the successor position; board bit-identical afterwards",
             ["remove_invalid_moves"] + APPLY_FNS[kind] + ["ChessMove::apply", "ChessMove::undo"], STEP_ASSUME + "; A arbitrary 64-bit attack map",
-            stubs=[NOSPILL, ATTSTUB], module=MG, est_s=200)
-add("c01_filter_pair_w", ["C01"], "experimental",
+            stubs=[NOSPILL, ATTSTUB, APPENDSTUB], module=MG, est_s=200)
+add("c01_filter_pair_w", ["C01"], "thorough",
     "remove_invalid_moves on two candidates: each is tried on the original position with its own attack map, kept independently, order preserved, board restored",
-    ["remove_invalid_moves", "StandardChessMove::apply", "StandardChessMove::undo"], STEP_ASSUME, stubs=[NOSPILL, ATTSTUB], module=MG, est_s=400, heavy=True)
+    ["remove_invalid_moves", "StandardChessMove::apply", "StandardChessMove::undo"], STEP_ASSUME, stubs=[NOSPILL, ATTSTUB, APPENDSTUB], module=MG, est_s=400, heavy=True)
 for nm, d in [("m5_knight_table", "generate_knight_targets_table()[sq] == on-board L-jumps (no wrap-around), symbolic sq"),
               ("m5_king_table", "generate_king_targets_table()[sq] == adjacent on-board squares (no wrap-around), symbolic sq"),
               ("m5_tables_wired", "Targets::default() stores the king table in `kings` and the knight table in `knights`")]:
